@@ -9,7 +9,32 @@ import time
 from vlib import (SPEC, ToolError, build_harness, case_hash, log, run_harness, run_tlc, require_ok,
                   seed, workdir, write_replay)
 
-INV = "Whole AtMostOnce RealTimeFIFO DiscOnlyWhenDone BlockingRestored BlockingNeverEmpty AcceptedDelivered"
+INV = ("Whole AtMostOnce RealTimeFIFO DiscOnlyWhenDone BlockingRestored BlockingNeverEmpty AcceptedDelivered "
+       "NoFalseSuccess SendResultsRight")
+_EARLY = {}
+
+
+def early_rx_close():
+    """Observed parameter: does the code close its own copy of the dedicated receiver right after the first
+    fragment (TRUE) or only when send returns (FALSE)? Read off a recorded two-packet send."""
+    if "v" in _EARLY:
+        return _EARLY["v"]
+    import fragcheck
+    wd = workdir("probe")
+    results, raw = fragcheck.replay(wd, "probe", 4096, [{"id": 1, "len": 5000, "natt": 0, "mix": 0, "fh": []}])
+    order = []
+    with open(raw) as f:
+        for line in f:
+            e = json.loads(line)
+            if e.get("a") == 1 and e["ev"] in ("sendmsg.call", "send.call", "close.call"):
+                order.append(e["ev"])
+    os.remove(raw)
+    v = False
+    if "sendmsg.call" in order and "send.call" in order:
+        i, j = order.index("sendmsg.call"), order.index("send.call")
+        v = "close.call" in order[i:j]
+    _EARLY["v"] = v
+    return v
 
 
 def tla_seq(x):
@@ -21,7 +46,8 @@ def tla_seq(x):
 
 
 def model(wd, name, msgs, plan, crashers=(), follow_on_shared=False, restore=True, incomplete="error",
-          export=False, simulate=None, depth=None, tlcseed=None, liveness=True, workers=8, timeout=3000):
+          export=False, simulate=None, depth=None, tlcseed=None, liveness=True, workers=8, timeout=3000, early=None,
+          inv=None):
     mod = "T_" + name.replace("-", "_")
     with open(os.path.join(wd, mod + ".tla"), "w") as f:
         f.write("---- MODULE %s ----\nEXTENDS MCTransport\nMCMsgs == %s\nMCPlan == %s\n====\n" % (
@@ -29,10 +55,11 @@ def model(wd, name, msgs, plan, crashers=(), follow_on_shared=False, restore=Tru
     cfg = os.path.join(wd, mod + ".cfg")
     with open(cfg, "w") as f:
         f.write("SPECIFICATION %s\nCONSTANTS\n  Senders = {%s}\n  Msgs <- MCMsgs\n  Plan <- MCPlan\n  Crashers = {%s}\n"
-                "  FollowOnShared = %s\n  RestoreBlocking = %s\n  IncompleteIs = \"%s\"\nINVARIANTS %s %s\n%s%s\n" % (
+                "  FollowOnShared = %s\n  RestoreBlocking = %s\n  EarlyRxClose = %s\n  IncompleteIs = \"%s\"\nINVARIANTS %s %s\n%s%s\n" % (
                     "FairSpec" if (liveness and not simulate) else "Spec",
                     ", ".join(str(i + 1) for i in range(len(msgs))), ", ".join(map(str, crashers)),
-                    "TRUE" if follow_on_shared else "FALSE", "TRUE" if restore else "FALSE", incomplete, INV,
+                    "TRUE" if follow_on_shared else "FALSE", "TRUE" if restore else "FALSE",
+                    "TRUE" if (early_rx_close() if early is None else early) else "FALSE", incomplete, inv or INV,
                     "Export" if export else "",
                     "PROPERTIES Terminates\n" if (liveness and not simulate) else "",
                     "" if (export or simulate) else "VIEW View"))
@@ -124,6 +151,8 @@ def judge(case, v):
             return "messages of sender %d out of order: %s" % (s, seen), v.get("matched")
         per[s] = j
     for i, c in enumerate(calls):
+        if i >= len(case["plan"]):
+            break
         if c["res"] == "empty" and case["plan"][i] == "recv":
             return "blocking recv returned 'empty' (call %d)" % i, v.get("matched")
         if c["res"] == "error" and not killed:
@@ -140,6 +169,14 @@ def judge(case, v):
         i = v.get("diverged_in_call", 0)
         if i < len(case["plan"]) and case["plan"][i] == "try":
             return "try_recv (call %d) went to sleep in the kernel: %s" % (i, v.get("why")), False
+    if v.get("matched") and "sends" in v:
+        want = sorted((x["s"], x["j"], x["res"]) for x in case.get("slog", []))
+        got_s = sorted((x[0], x[1], "ok" if x[2] else "err") for x in v["sends"])
+        if want and got_s != want:
+            return "results of the sends %s differ from the model's %s" % (got_s, want), True
+    if v.get("matched") and case.get("falseOk"):
+        return ("send returned Ok for a message whose last fragments were transmitted after the receiving end was gone "
+                "(nobody can ever read them; with larger messages the send blocks forever): sends %s" % v.get("sends")), True
     if v.get("matched"):
         # the schedule was executed as generated: the model's results must be the code's
         got = [c["res"] for c in calls]
@@ -176,7 +213,11 @@ def campaign(pid, plans, what, extra_violation=None):
         # exhaustive check of the design
         r = model(wd, pl["name"] + "-mc", liveness=pl.get("liveness", True), **kw)
         require_ok(r, "Transport " + pl["name"])
-        if r.violation:
+        inv_for_gen = INV
+        if r.violation == "NoFalseSuccess":
+            # the design with the close order the code uses admits a false success: demonstrate it on the code
+            inv_for_gen = INV.replace("NoFalseSuccess", "")
+        elif r.violation:
             rp = write_replay(pid, pl["name"] + "-model", {"property": pid, "kind": "model", "invariant": r.violation,
                                                            "trace": r.trace[:6000]})
             violations.append({"what": "Transport.tla: %s violated (%s)" % (r.violation, pl["name"]), "replay": rp,
@@ -186,13 +227,13 @@ def campaign(pid, plans, what, extra_violation=None):
         transitions += r.generated
         # schedules: random walks through the same model
         g = model(wd, pl["name"] + "-gen", export=True, simulate=pl.get("simulate", 50), depth=200,
-                  tlcseed=seed() + len(samples), liveness=False, **kw)
+                  tlcseed=seed() + len(samples), liveness=False, inv=inv_for_gen, **kw)
         require_ok(g, "Transport gen " + pl["name"])
         sch = schedules(g)
         if pl.get("limit") and len(sch) > pl["limit"]:
             sch = rnd.sample(sch, pl["limit"])
         cases = [{"msgs": pl["msgs"], "plan": pl["plan"], "procs": list(pl.get("procs", pl.get("crashers", ()))),
-                  "sched": s["sched"], "rlog": s["rlog"], "delivered": s["delivered"],
+                  "sched": s["sched"], "rlog": s["rlog"], "delivered": s["delivered"], "slog": s.get("slog", []), "falseOk": s.get("falseOk", False),
                   "tmo": timeouts(pl["plan"], s["sched"])} for s in sch]
         verdicts = replay(cases)
         nbad = 0
